@@ -1,5 +1,312 @@
-import EnvVerif.Lemmas.Basic
+/-
+  Props/C12.lean — C12: inclusion proofs.
+
+  "For any envelope and any set of target digests, a proof is produced iff every target
+  occurs in the envelope; a produced proof has the envelope's root digest and is accepted,
+  for those targets, by a verifier who holds only the root digest. A verifier never accepts
+  a proof whose root digest differs from its own or in which some target does not occur,
+  and a proof discloses structure only along the paths from the root to the targets: every
+  element off those paths, and each target itself, appears solely as an elided digest."
+
+  The hash `h`, the AEAD `A` and the compressor `Z` are arbitrary throughout.  Positions
+  are `Path`s (`Lemmas/Paths.lean`); `e.at p = some x` says that `x` is the element of `e`
+  at position `p`.  `proofOf T e` (`Lemmas/ProofLemmas.lean`) is the proof envelope written
+  as a pure function: prune everything outside the reveal set, then prune the targets that
+  have no target beneath them.  `Inv h e` (every envelope the library produces satisfies
+  it) is needed wherever the traversal rebuilds nodes: on an envelope that is only `WF` the
+  rebuilding `assert!` can fire (`proof_panics_without_canon`).
+-/
+import EnvVerif.Lemmas.ProofLemmas
 namespace EnvVerif
-/-- placeholder while the property theorems are being written -/
-theorem c12_sort_asc_id {as : List Env} (hs : AscDigests as) : sortByDigest as = as := sortByDigest_of_asc hs
+open Env C12Sample
+
+/-! ### the verifier -/
+
+/-- the early exit of `remove_all_found` does not change the result: `contains_all`
+holds iff every target is the digest of a walked element -/
+theorem containsAll_iff (p : Env) (T : List Digest) :
+    containsAll p T = true ↔ ∀ d ∈ T, d ∈ walkDigests p :=
+  containsAll_iff_walk p T
+
+/-- the walked digests are the digests found at the positions of the envelope -/
+theorem walkDigests_iff_at (e : Env) (d : Digest) :
+    d ∈ walkDigests e ↔ ∃ p x, e.at p = some x ∧ x.digest = d :=
+  mem_walkDigests_iff
+
+/-- **soundness and completeness of the verifier**: a proof is accepted iff its root digest
+is the verifier's and every target occurs in it -/
+theorem confirm_iff (e : Env) (T : List Digest) (p : Env) :
+    confirmContainsSet e T p = true ↔ e.digest = p.digest ∧ ∀ d ∈ T, d ∈ walkDigests p := by
+  simp only [confirmContainsSet, Bool.and_eq_true, beq_iff_eq, containsAll_iff]
+
+/-- a proof with another root digest is never accepted -/
+theorem confirm_rejects_other_root (e : Env) (T : List Digest) (p : Env)
+    (hd : e.digest ≠ p.digest) : confirmContainsSet e T p = false := by
+  cases hc : confirmContainsSet e T p with
+  | false => rfl
+  | true => exact absurd ((confirm_iff e T p).mp hc).1 hd
+
+example : ∃ e p : Env, e.digest ≠ p.digest := ⟨e0, a1, by rw [e0_digest, a1_digest]; decide⟩
+
+/-- a proof in which some target does not occur is never accepted -/
+theorem confirm_rejects_absent_target (e : Env) (T : List Digest) (p : Env) (d : Digest)
+    (hd : d ∈ T) (hab : d ∉ walkDigests p) : confirmContainsSet e T p = false := by
+  cases hc : confirmContainsSet e T p with
+  | false => rfl
+  | true => exact absurd (((confirm_iff e T p).mp hc).2 d hd) hab
+
+example : ∃ (T : List Digest) (p : Env) (d : Digest), d ∈ T ∧ d ∉ walkDigests p :=
+  ⟨[⟨9⟩], e0, ⟨9⟩, by simp, by decide +kernel⟩
+
+/-! ### the reveal set and the interior set -/
+
+/-- `reveal_sets`, first output: started with `cur` above the element, it yields `cur` and
+the digests on the chain from the element down to a target position, both ends included —
+provided the element has a target position at all -/
+theorem revealSets_spec (T cur : List Digest) (e : Env) (d : Digest) :
+    d ∈ revealSets T cur e ↔
+      ∃ p x, e.at p = some x ∧ memD T x.digest = true ∧
+        (d ∈ cur ∨ ∃ q y, q <+: p ∧ e.at q = some y ∧ y.digest = d) := by
+  rw [revealSets_collect]
+  simp [CollectSpec, OnPath]
+
+/-- `reveal_sets`, second output (`interior`): the same with the target position itself
+left out — the digests of the elements strictly above a target position -/
+theorem interiorSets_spec (T cur : List Digest) (e : Env) (d : Digest) :
+    d ∈ interiorSets T cur e ↔
+      ∃ p x, e.at p = some x ∧ memD T x.digest = true ∧
+        (d ∈ cur ∨ ∃ q y, q <+: p ∧ q ≠ p ∧ e.at q = some y ∧ y.digest = d) := by
+  rw [interiorSets_collect]
+  simp [CollectSpec, OnPath]
+
+/-- the subset test of `proof_contains_set` succeeds iff every target occurs -/
+theorem targets_subset_iff (T : List Digest) (e : Env) :
+    (∀ d ∈ T, memD (revealSets T [] e) d = true) ↔ ∀ d ∈ T, d ∈ walkDigests e :=
+  targets_subset_iff_walk T e
+
+/-! ### the prover -/
+
+section
+variable (h : Hash) (A : Aead) (Z : Deflate)
+
+/-- `proof_contains_set` in closed form; in particular it neither fails nor panics on an
+envelope satisfying the invariant -/
+theorem proof_eq (e : Env) (T : List Digest) (hi : Inv h e) :
+    proofContainsSet h A Z e T =
+      .ok (if T.all (memD (revealSets T [] e)) then some (proofOf T e) else none) := by
+  rw [proofContainsSet_eq h A Z e T hi.1 (Canon.shape e hi.2)]
+  split <;> rfl
+
+example : Inv sumH e0 := inv_e0
+
+theorem proof_no_fault (e : Env) (T : List Digest) (hi : Inv h e) :
+    (∀ s, proofContainsSet h A Z e T ≠ .err s) ∧ (∀ s, proofContainsSet h A Z e T ≠ .panic s) := by
+  rw [proof_eq h A Z e T hi]
+  exact ⟨fun s hs => (by cases hs), fun s hs => (by cases hs)⟩
+
+example : Inv sumH e0 := inv_e0
+
+/-- `WF` alone does not exclude a panic: on a node with an empty assertion list (which the
+library never builds) the `assert!` of `new_with_unchecked_assertions` fires -/
+theorem proof_panics_without_canon :
+    WF sumH eP ∧
+    proofContainsSet sumH A Z eP [⟨7⟩] = .panic "envelope.rs:new_with_unchecked_assertions:assert" :=
+  ⟨wf_eP, proofContainsSet_eP A Z⟩
+
+/-- **a proof is produced iff every target occurs in the envelope** -/
+theorem proof_some_iff (e : Env) (T : List Digest) (hi : Inv h e) :
+    (∃ p, proofContainsSet h A Z e T = .ok (some p)) ↔ ∀ d ∈ T, d ∈ walkDigests e := by
+  rw [proof_eq h A Z e T hi, ← targets_subset_iff, ← all_memD_iff]
+  by_cases hall : T.all (memD (revealSets T [] e)) = true <;> simp [hall]
+
+example : Inv sumH e0 ∧ ∀ d ∈ T0, d ∈ walkDigests e0 := ⟨inv_e0, by decide +kernel⟩
+
+/-- otherwise the answer is `None` -/
+theorem proof_none_iff (e : Env) (T : List Digest) (hi : Inv h e) :
+    proofContainsSet h A Z e T = .ok none ↔ ∃ d ∈ T, d ∉ walkDigests e := by
+  rw [proof_eq h A Z e T hi]
+  have := targets_subset_iff T e
+  rw [← all_memD_iff] at this
+  by_cases hall : T.all (memD (revealSets T [] e)) = true
+  · simp only [hall, if_true, Res.ok.injEq, reduceCtorEq, false_iff, not_exists, not_and,
+      Decidable.not_not]
+    exact this.mp hall
+  · simp only [hall, Bool.false_eq_true, if_false, true_iff]
+    have hn := mt this.mpr hall
+    simpa using hn
+
+example : Inv sumH e0 ∧ ∃ d ∈ [(⟨2⟩ : Digest), ⟨9⟩], d ∉ walkDigests e0 :=
+  ⟨inv_e0, ⟨9⟩, by simp, by decide +kernel⟩
+
+/-- the "only if" half needs no hypothesis on the envelope -/
+theorem proof_some_only_if (e : Env) (T : List Digest) (p : Env)
+    (hp : proofContainsSet h A Z e T = .ok (some p)) : ∀ d ∈ T, d ∈ walkDigests e := by
+  rw [← targets_subset_iff, ← all_memD_iff]
+  cases hall : T.all (memD (revealSets T [] e)) with
+  | true => rfl
+  | false => simp [proofContainsSet, hall] at hp
+
+example : proofContainsSet sumH A Z e0 T0 = .ok (some (proofOf T0 e0)) := proof_e0 A Z
+
+/-- a produced proof is `proofOf T e` -/
+theorem proof_ok_eq (e : Env) (T : List Digest) (p : Env) (hi : Inv h e)
+    (hp : proofContainsSet h A Z e T = .ok (some p)) :
+    p = proofOf T e ∧ ∀ d ∈ T, d ∈ revealSets T [] e := by
+  rw [proof_eq h A Z e T hi] at hp
+  by_cases hall : T.all (memD (revealSets T [] e)) = true
+  · simp only [hall, if_true, Res.ok.injEq, Option.some.injEq] at hp
+    exact ⟨hp.symm, fun d hd => (memD_iff _ _).mp ((all_memD_iff _ _).mp hall d hd)⟩
+  · simp [hall] at hp
+
+/-- the sample: targets `2`, `1: 2` (which contains `2`) and `4` in `7 [1: 2, 1: 4]` -/
+example : Inv sumH e0 ∧ proofContainsSet sumH A Z e0 T0 = .ok (some (proofOf T0 e0)) :=
+  ⟨inv_e0, proof_e0 A Z⟩
+
+/-- its proof: the subject and the leaves are elided, the target `1: 2` stays revealed
+because the target `2` lies beneath it -/
+example : proofOf T0 e0 =
+    .node (.elided ⟨7⟩) [.assertion (.elided ⟨1⟩) (.elided ⟨2⟩) ⟨3⟩,
+      .assertion (.elided ⟨1⟩) (.elided ⟨4⟩) ⟨5⟩] ⟨15⟩ := by
+  set_option maxRecDepth 100000 in rfl
+
+/-- **a produced proof has the envelope's root digest** -/
+theorem proof_digest (e : Env) (T : List Digest) (p : Env) (hi : Inv h e)
+    (hp : proofContainsSet h A Z e T = .ok (some p)) : p.digest = e.digest := by
+  obtain ⟨rfl, _⟩ := proof_ok_eq h A Z e T p hi hp
+  rw [proofOf, prune_digest, prune_digest]
+
+example : Inv sumH e0 ∧ proofContainsSet sumH A Z e0 T0 = .ok (some (proofOf T0 e0)) :=
+  ⟨inv_e0, proof_e0 A Z⟩
+
+/-- every target occurs in a produced proof -/
+theorem proof_contains_targets (e : Env) (T : List Digest) (p : Env) (hi : Inv h e)
+    (hp : proofContainsSet h A Z e T = .ok (some p)) : ∀ d ∈ T, d ∈ walkDigests p := by
+  obtain ⟨rfl, hall⟩ := proof_ok_eq h A Z e T p hi hp
+  intro d hd
+  exact target_in_proof hd (hall d hd)
+
+example : Inv sumH e0 ∧ proofContainsSet sumH A Z e0 T0 = .ok (some (proofOf T0 e0)) :=
+  ⟨inv_e0, proof_e0 A Z⟩
+
+/-- **a produced proof is accepted**, for the same targets, by any verifier whose envelope
+has the same root digest — for instance one who holds only the elided root -/
+theorem proof_accepted (e : Env) (T : List Digest) (p : Env) (hi : Inv h e)
+    (hp : proofContainsSet h A Z e T = .ok (some p)) :
+    ∀ e' : Env, e'.digest = e.digest → confirmContainsSet e' T p = true := by
+  intro e' he'
+  rw [confirm_iff]
+  exact ⟨by rw [he', proof_digest h A Z e T p hi hp], proof_contains_targets h A Z e T p hi hp⟩
+
+example : Inv sumH e0 ∧ proofContainsSet sumH A Z e0 T0 = .ok (some (proofOf T0 e0)) ∧
+    (Env.elided e0.digest).digest = e0.digest :=
+  ⟨inv_e0, proof_e0 A Z, rfl⟩
+
+/-! ### what a proof discloses -/
+
+/-- **minimality, by digests** (no further hypothesis).  Every position of the proof is a
+position of the envelope with the same digest; an element the proof shows non-elided has
+the digest of an element strictly above a target position (it is in the interior set) and
+was not elided in the envelope; an element whose digest is a target with no target
+beneath it is shown elided. -/
+theorem proof_minimal (e : Env) (T : List Digest) (p : Env) (hi : Inv h e)
+    (hp : proofContainsSet h A Z e T = .ok (some p)) :
+    ∀ pos x, p.at pos = some x →
+      ∃ y, e.at pos = some y ∧ x.digest = y.digest ∧
+        (x.isElided = false → y.isElided = false ∧
+          ∃ t w q z, e.at t = some w ∧ memD T w.digest = true ∧ q <+: t ∧ q ≠ t ∧
+            e.at q = some z ∧ z.digest = x.digest) ∧
+        (x.digest ∈ T → x.digest ∉ interiorSets T [] e → x.isElided = true) := by
+  obtain ⟨rfl, _⟩ := proof_ok_eq h A Z e T p hi hp
+  intro pos x hx
+  obtain ⟨y, hy, hxy, hd⟩ := proofOf_at_inv hx
+  refine ⟨y, hy, hd, ?_, ?_⟩
+  · intro hn
+    obtain ⟨hint, hny⟩ := proofOf_not_elided hxy hn
+    refine ⟨hny, ?_⟩
+    obtain ⟨t, w, hw, hm, q, z, hq, hne, hz, hzd⟩ := mem_interior_iff.mp hint
+    exact ⟨t, w, q, z, hw, hm, hq, hne, hz, hzd.trans hd.symm⟩
+  · intro hT hnI
+    cases hel : x.isElided with
+    | true => rfl
+    | false =>
+      obtain ⟨hint, _⟩ := proofOf_not_elided hxy hel
+      rw [hd] at hnI
+      exact absurd hint hnI
+
+example : Inv sumH e0 ∧ proofContainsSet sumH A Z e0 T0 = .ok (some (proofOf T0 e0)) :=
+  ⟨inv_e0, proof_e0 A Z⟩
+
+/-- **minimality, by positions**, under two decidable hypotheses: the envelope is
+`DigestFaithful` (two non-obscured elements with the same digest have children with the
+same digests — what a collision-free hash gives) and no elided, encrypted or compressed
+element carries the digest of an element strictly above a target
+(`NoObscuredInterior`).  Then every non-elided position of the proof lies strictly above
+a target position: every position off the paths, and every target position with no
+target beneath it, holds an elided digest. -/
+theorem proof_minimal_partial (e : Env) (T : List Digest) (p : Env) (hi : Inv h e)
+    (hF : DigestFaithful e) (hO : NoObscuredInterior T e)
+    (hp : proofContainsSet h A Z e T = .ok (some p)) :
+    ∀ pos x, p.at pos = some x → x.isElided = false → AboveTarget T e pos := by
+  obtain ⟨rfl, _⟩ := proof_ok_eq h A Z e T p hi hp
+  intro pos x hx hn
+  exact proofOf_above_target hF hO hx hn
+
+example : Inv sumH e0 ∧ DigestFaithful e0 ∧ NoObscuredInterior T0 e0 ∧
+    proofContainsSet sumH A Z e0 T0 = .ok (some (proofOf T0 e0)) :=
+  ⟨inv_e0, faithful_e0, noObscured_e0, proof_e0 A Z⟩
+
+/-- in particular every position that is not strictly above a target position — every
+position off the paths, and every target position with no target beneath it — holds an
+elided digest -/
+theorem proof_off_path_elided (e : Env) (T : List Digest) (p : Env) (hi : Inv h e)
+    (hF : DigestFaithful e) (hO : NoObscuredInterior T e)
+    (hp : proofContainsSet h A Z e T = .ok (some p)) :
+    ∀ pos x, p.at pos = some x → ¬ AboveTarget T e pos → x.isElided = true := by
+  intro pos x hx hna
+  cases hel : x.isElided with
+  | true => rfl
+  | false => exact absurd (proof_minimal_partial h A Z e T p hi hF hO hp pos x hx hel) hna
+
+example : Inv sumH e0 ∧ DigestFaithful e0 ∧ NoObscuredInterior T0 e0 ∧
+    proofContainsSet sumH A Z e0 T0 = .ok (some (proofOf T0 e0)) :=
+  ⟨inv_e0, faithful_e0, noObscured_e0, proof_e0 A Z⟩
+
+/-- the same under the hypothesis in its coarser form: no obscured element carries a digest
+of the reveal set -/
+theorem proof_minimal_partial_reveal (e : Env) (T : List Digest) (p : Env) (hi : Inv h e)
+    (hF : DigestFaithful e)
+    (hO : ∀ x ∈ elements e, x.isObscured = true → memD (revealSets T [] e) x.digest = false)
+    (hp : proofContainsSet h A Z e T = .ok (some p)) :
+    ∀ pos x, p.at pos = some x → x.isElided = false → AboveTarget T e pos := by
+  apply proof_minimal_partial h A Z e T p hi hF _ hp
+  intro x hx ho
+  have := hO x hx ho
+  rw [memD_false_iff] at this ⊢
+  exact fun hint => this (interior_sub_reveal hint)
+
+example : Inv sumH e0 ∧ DigestFaithful e0 ∧
+    (∀ x ∈ elements e0, x.isObscured = true → memD (revealSets T0 [] e0) x.digest = false) ∧
+    proofContainsSet sumH A Z e0 T0 = .ok (some (proofOf T0 e0)) :=
+  ⟨inv_e0, faithful_e0, by decide +kernel, proof_e0 A Z⟩
+
+end
+
+/-- minimality by positions without the hypothesis on obscured elements -/
+def proof_minimal_full_statement : Prop :=
+  ∀ (h : Hash) (A : Aead) (Z : Deflate) (e : Env) (T : List Digest) (p : Env),
+    Inv h e → DigestFaithful e → proofContainsSet h A Z e T = .ok (some p) →
+    ∀ pos x, p.at pos = some x → x.isElided = false → AboveTarget T e pos
+
+/-- **finding F5b**: the full statement fails.  In `COMPRESSED(digest 3) [1: 2]` the
+subject is a compressed element with the digest of the assertion `1: 2`; the proof for the
+target `2` reveals the digest 3 (the assertion is on the path), so the first pass keeps
+the subject as it is, and the second pass does not touch it: the proof carries the
+compressed content although the subject is on no path to the target. -/
+theorem proof_minimal_full_false : ¬ proof_minimal_full_statement := by
+  intro hfull
+  have hp : proofContainsSet sumH trivA trivZ eB TB = .ok (some (proofOf TB eB)) := by
+    rw [proof_eq sumH trivA trivZ eB TB inv_eB, all_eB]; rfl
+  exact not_above_eB
+    (hfull sumH trivA trivZ eB TB _ inv_eB faithful_eB hp [.subj] _ proof_eB_subj rfl)
+
 end EnvVerif
